@@ -10,6 +10,7 @@ namespace PyTRS
 abbrev Str := List Char
 
 def toStr (s : String) : Str := s.toList
+def S (s : String) : Str := s.toList
 instance : Coe String Str := ⟨String.toList⟩
 
 def lookupTbl (tbl : List (Nat × List Nat)) (n : Nat) : Option (List Nat) :=
